@@ -29,7 +29,7 @@ func init() {
 	core.Register(&core.Property{
 		ID:    "C08",
 		Level: "model_checking",
-		Rule: "universe = (a) every sequence of <=5 (thorough <=6) lines over 16 line shapes (headers good/bad, '#', blank, metavariable declarations good/bad, -/+/context lines, elision lines) with and without final newline; (b) every sequence of <=4 (thorough <=5) tokens over a 33-token alphabet as the '-' side against a fixed '+' side and vice versa; (c) every byte prefix of every patch in /repo/testdata and /repo/examples; (d) the radius-1 token neighbourhood of each of those patches (each token deleted, duplicated, swapped with its neighbour, replaced by each alphabet token); (f) the radius-1 byte neighbourhood of those patches (each byte deleted; each of 14 (thorough 31) hostile bytes incl. NUL, 0xff, CR inserted before / written over every position); (g) every real patch and 7 stress patches against every construct of the catalogue in context and against deeply nested / long sources (nesting 10..300, thorough ..1000); (h) 14 unusual file headers (empty comment lines, /**/, BOM, //line, markers) x 3 bodies x 5 flag sets through the CLI; (i) a target tree whose symbolic links form cycles; every sequence of <=3 lines of a -P list over {valid, missing, empty, blanks, tab, '#', trailing blanks} with and without final newline; (j) every sequence of <=5 (thorough <=6) body lines over 7 lines with elisions on the -, + and context side; (k) //line directives (line 1, 7, 300000000) at every line of a target with multi-line sites; (l) 2..9 elisions (literal, one repeated metavariable, distinct metavariables) over lists of 12 and 40 equal elements, as arguments and as statements; (m) every sequence of <=5 lines over 6 lines that start with or carry many elisions; (n) every sequence of <=3 target arguments over 7 spellings of two files and their directory; (e) well-formed but ill-typed patches: every metavariable kind in every slot kind on either side with captures of every filler kind. Each runs patch.Parse and, if accepted, Apply on target files that contain every construct; a slice also through the CLI (-p and stdin). " +
+		Rule: "universe = (a) every sequence of <=5 (thorough <=6) lines over 16 line shapes (headers good/bad, '#', blank, metavariable declarations good/bad, -/+/context lines, elision lines) with and without final newline; (b) every sequence of <=4 (thorough <=5) tokens over a 33-token alphabet as the '-' side against a fixed '+' side and vice versa; (c) every byte prefix of every patch in /repo/testdata and /repo/examples; (d) the radius-1 token neighbourhood of each of those patches (each token deleted, duplicated, swapped with its neighbour, replaced by each alphabet token); (f) the radius-1 byte neighbourhood of those patches (each byte deleted; each of 14 (thorough 31) hostile bytes incl. NUL, 0xff, CR inserted before / written over every position); (g) every real patch and 7 stress patches against every construct of the catalogue in context and against deeply nested / long sources (nesting 10..300, thorough ..1000); (h) 14 unusual file headers (empty comment lines, /**/, BOM, //line, markers) x 3 bodies x 5 flag sets through the CLI; (i) a target tree whose symbolic links form cycles; every sequence of <=3 lines of a -P list over {valid, missing, empty, blanks, tab, '#', trailing blanks} with and without final newline; (j) every sequence of <=5 (thorough <=6) body lines over 7 lines with elisions on the -, + and context side; (k) //line directives (line 1, 7, 300000000) at every line of a target with multi-line sites; (l) 2..9 elisions (literal, one repeated metavariable, distinct metavariables) over lists of 12 and 40 equal elements, as arguments and as statements; (m) every sequence of <=5 lines over 6 lines that start with or carry many elisions; (o) a function of 6000 and of 20001 statements (workers and replays run under a 6 GB address-space limit); (n) every sequence of <=3 target arguments over 7 spellings of two files and their directory; (e) well-formed but ill-typed patches: every metavariable kind in every slot kind on either side with captures of every filler kind. Each runs patch.Parse and, if accepted, Apply on target files that contain every construct; a slice also through the CLI (-p and stdin). " +
 			"Oracle: terminates (watchdog), no panic or fatal error, and either success or an error value / non-zero exit with a diagnostic. non-trivial = the patch is accepted by patch.Parse (the engine runs)",
 		Assumptions: []string{"a case that does not return within the watchdog limit of 10 s (normal cost < 1 ms) is re-run in isolation before it is reported as a hang"},
 		Bounds: func(tier string) map[string]any {
@@ -254,6 +254,17 @@ func c08Gen(tier string, emit0 func(any)) {
 		}
 		emit(&C08Case{Family: "n-repeated-arguments", Patch: "@@\nvar x expression\n@@\n-foo(x)\n+bar(x)\n", Files: twoFiles, CLI: "p", Args: append([]string{}, a...)})
 	})
+	// (o) one function with very many statements: cost and memory stay proportional to the input (one case each, 70 KB and 229 KB)
+	stmtsN := []int{6000, 20001}
+	for _, n := range stmtsN {
+		var b strings.Builder
+		b.WriteString("package a\n\nfunc f() {\n")
+		for i := 0; i < n; i++ {
+			fmt.Fprintf(&b, "\tx%d()\n", i)
+		}
+		b.WriteString("\tfoo(1)\n}\n")
+		emit(&C08Case{Family: "o-long-function", Patch: "@@\nvar x expression\n@@\n-foo(x)\n+bar(x)\n", Files: []string{b.String()}})
+	}
 	// (b) token strings on one side
 	seqsEach(c08TokenAlphabet, tl, func(s []string) {
 		if len(s) == 0 {
